@@ -13,7 +13,7 @@ Behaviour script (all keys optional):
   set_data {"t,k": [[dest_sim_index, attr, token], ...]} (async set_data issued during that step)
 """
 from __future__ import annotations
-import asyncio, copy, json, random, sys, types, warnings
+import asyncio, copy, inspect, json, random, sys, types, warnings
 warnings.simplefilter('ignore')
 import mosaik, mosaik_api_v3
 import mosaik.scheduler as sched
@@ -235,15 +235,35 @@ class GSim(mosaik_api_v3.Simulator):
         return d
 
 
+def _drive(g):
+    """run a generator-style request handler to its end without suspending (its gates are open: the simulator is 'instant')"""
+    try:
+        x = next(g)
+        while True:
+            if not (isinstance(x, asyncio.Future) and x.done()): raise RuntimeError('a plain simulator cannot suspend')
+            x = g.send(x.result())
+    except StopIteration as e:
+        return e.value
+
+
+class PSim(GSim):
+    """the same scripted simulator with PLAIN step and get_data methods (no generators): it answers every request at once,
+    inside mosaik's own call - what most in-process simulators look like.  No asynchronous requests."""
+    def step(self, time, inputs, max_advance=None): return _drive(GSim.step(self, time, inputs, max_advance))
+    def get_data(self, outputs):
+        r = GSim.get_data(self, outputs)
+        return _drive(r) if inspect.isgenerator(r) else r
+
+
 def build_world(case, cache=True, rev=False, debug=False):
-    world = mosaik.World({'S': {'python': 'harness.simlib:GSim'}}, cache=cache, skip_greetings=True,
+    world = mosaik.World({'S': {'python': 'harness.simlib:GSim'}, 'P': {'python': 'harness.simlib:PSim'}}, cache=cache, skip_greetings=True,
                          max_loop_iterations=case.get('maxloop', 100), debug=debug)
     n = case['n']
     ents = {}; mirrors = {}
     grp = [tuple(g) for g in case['grp']]
 
     def start(i):
-        mf = world.start('S', sim_id=f'S{i}', beh=copy.deepcopy(case['beh'][i]))
+        mf = world.start('P' if i in case.get('plain', ()) else 'S', sim_id=f'S{i}', beh=copy.deepcopy(case['beh'][i]))
         if case.get('mirror'):
             # several entities per simulator: e and the mirror entities m1, m2, ..., connected index by index
             allents = mf.M.create(1 + case['mirror'])
@@ -304,6 +324,7 @@ class Run:
 def run_case(case, lazy=True, cache=True, strategy='random', seed=0, script=None, fine=False, rev=False,
              debug=False, timeout_events=20000, instant=()) -> Run:
     r = Run()
+    if case.get('plain') and instant != 'all': instant = sorted(set(instant) | {f'S{i}' for i in case['plain']})
     CTX.ctrl = ctrl = Controller(strategy, seed, script, fine, instant)
     try:
         world = build_world(case, cache, rev, debug or bool(case.get('debug')))     # a case may ask for World(debug=True)
